@@ -120,6 +120,8 @@ type GenOpts struct {
 	Formats    []string
 	LKPool     int // size of the LK pool (default 24..40)
 	NoCustomV1 bool
+	// NoReversed: never configure the reversed key order (checks whose oracle is tied to the default order)
+	NoReversed bool
 	// BigOneIn n > 0: one configuration in n gets a dense key universe of 150-900 keys (Config.Big)
 	BigOneIn int
 }
@@ -161,8 +163,13 @@ func GenConfig(t *rapid.T, tier string, o GenOpts) Config {
 		Cache:     rapid.SampledFrom(caches).Draw(t, "cache"),
 		Marshaler: rapid.SampledFrom(marsh).Draw(t, "marshaler"),
 	}
-	if rapid.IntRange(0, 5).Draw(t, "cmp") == 0 {
+	switch rapid.IntRange(0, 7).Draw(t, "cmp") {
+	case 0:
 		c.Cmp = "scaled"
+	case 1:
+		if !o.NoReversed {
+			c.Cmp = "reversed"
+		}
 	}
 	if c.Val == VNil {
 		c.Format, c.Marshaler = ref.FormatBinary, "json"
